@@ -1539,7 +1539,7 @@ class Chemical:
 
         # Energy
         self._Hfus = heat_of_fusion(CAS) or 0. if Hfus is None else Hfus
-        self._Sfus = None if Hfus is None or Tm is None else Hfus / Tm 
+        self._Sfus = None if self._Hfus is None or not self._Tm else self._Hfus / self._Tm
         
         # Other
         self._dipole = dipole or dipole_moment(CAS)
